@@ -120,6 +120,21 @@ def bip32Ops : List (String × Op) := [
         derivePath m p
       pure (reply r outNode)
     | _ => none),
+  ("nodepath", fun a => match a with   -- nodepath curve priv cc depth idx fp pathstr : key from raw fields, then DerivePath
+    | [c, priv, cc, depth, idx, fp, s] => do
+      let c ← argCurve c
+      let priv ← argBytes priv
+      let cc ← argBytes cc
+      let depth ← argNat depth
+      let idx ← argNat idx
+      let fp ← argBytes fp
+      let s ← argText s
+      let r : R Node := do
+        let n ← nodeOfPriv c .slip10 priv depth idx cc fp
+        let p ← parsePath s
+        derivePath n p
+      pure (reply r outNode)
+    | _ => none),
   ("wifenc", fun a => match a with
     | [k, v, comp] => do pure (reply (wifEncode sha256d (← argBytes k) (← argBytes v) (← argBool comp)) outText)
     | _ => none),
